@@ -443,46 +443,13 @@ def _compute_gates(project, fi, cls, cfg, memo):
 
 def check_lazy_reads(project: Project, rep):
     """NM-LAZY: in p_norm / sup_norm of both classes (and what they inherit), every read of the lazily computed data
-    (self.critical_pairs / self.values) lies behind a call that always computes the landscape, on every path"""
-    from ..core.cfg import CFG
-    for kind, cq, attr in (("exact", "persim.landscapes.exact.PersLandscapeExact", "critical_pairs"),
-                           ("grid", "persim.landscapes.approximate.PersLandscapeApprox", "values")):
-        cls = project.classes.get(cq)
-        if cls is None:
-            rep.unmodelled("NM-LAZY", None, None, f"{cq} not found")
-            continue
-        for mname in ("p_norm", "sup_norm"):
-            m = cls.lookup(mname, project)
-            if m is None:
-                continue
-            memo = {}
-            cfg = CFG(m.node)
-            gates = _compute_gates(project, m, cls, cfg, memo)
-            reads = []
-            for nd in cfg.nodes:
-                a = nd.ast
-                if a is None or nd.kind not in ("stmt", "return", "test", "for"):
-                    continue
-                roots = [a.test] if nd.kind == "test" and hasattr(a, "test") else ([a.iter] if nd.kind == "for" else [a])
-                for r in roots:
-                    for x in ast.walk(r):
-                        if isinstance(x, ast.Attribute) and x.attr == attr and isinstance(x.value, ast.Name) and x.value.id == "self" \
-                                and isinstance(x.ctx, ast.Load):
-                            reads.append((nd, x))
-            if not reads:
-                rep.discharged("NM-LAZY", m, m.node, f"{kind}.{mname}: does not read self.{attr} itself", nontrivial=False)
-                continue
-            bad = [(nd, x) for nd, x in reads if nd.id not in gates and not cfg.must_pass_through(cfg.entry.id, nd.id, gates)]
-            if bad:
-                nd, x = bad[0]
-                rep.refuted("NM-LAZY", m, nd.ast,
-                            f"{kind}.{mname} reads self.{attr} on a path on which the landscape has not been computed (no call that "
-                            f"always runs compute_landscape() lies before it): a landscape built with compute=False has norm 0 until "
-                            f"something else triggers the computation",
-                            construct=f"{m.qualname}: read of self.{attr} before compute_landscape")
-            else:
-                rep.discharged("NM-LAZY", m, reads[0][0].ast, f"{kind}.{mname}: every read of self.{attr} lies behind a call that "
-                                                              f"always computes the landscape")
+    (whatever compute_landscape stores: self.critical_pairs / self.values / self.max_depth) lies behind a call that always
+    computes the landscape, on every path (rule text: lazy_rule)"""
+    from . import lazy_rule
+    lazy_rule.positive_examples()
+    for cq in (lazy_rule.EXACT, lazy_rule.APPROX):
+        lazy_rule.check_class(project, rep, cq, "NM-LAZY", methods=("p_norm", "sup_norm"),
+                              why=": the norm is that of the place-holder (0) the first time")
 
 
 def _only_with_optional(fnode, call):
@@ -566,7 +533,7 @@ def run(project: Project, rep, tier: str):
         if not seen_:
             rep.discharged("NM-ALLDEPTHS", pn, pn.node, "no explicit loop over the depths (a vectorised sum)", nontrivial=False)
     for rn, n in (("NM-FORM", 0 if SHAPES_STATUS.get("v") == "ok" else 1), ("NM-HOM", 0 if SHAPES_STATUS.get("v") == "ok" else 1),
-                  ("NM-ARMS", 0 if SHAPES_STATUS.get("v") == "ok" else 1), ("NM-SUP", 4), ("NM-WIRE", 4)):
+                  ("NM-ARMS", 0 if SHAPES_STATUS.get("v") == "ok" else 1), ("NM-SUP", 4), ("NM-WIRE", 4), ("NM-LAZY", 4)):
         rep.floor(rn, n)
     for t in ("numpy.abs", "builtins.zip", "numpy.max", "builtins.max"):
         rep.trust(t)
